@@ -111,7 +111,7 @@ func checkC07(r *kit.Run) {
 		if (profile == "eval" || profile == "export") && !r.Thorough() && i%5 != 0 {
 			return
 		}
-		srcs := append([]string{"package p\n#D: {x: int}\n"}, s.render(pool)...)
+		srcs := append([]string{"package p\n#D: {x: int}\n#M: {T: _, out: [string]: T}\n"}, s.render(pool)...)
 		if ex != "" {
 			// imports must precede other declarations in their file
 			srcs = append(srcs, "package p\n"+ex+"\n")
